@@ -382,6 +382,12 @@ class DictDecoder:
         xsi_type = data["type"]
         params = data["value"]
 
+        if not isinstance(qname, str) or not isinstance(xsi_type, (str, type(None))):
+            raise ParserError(
+                f"Invalid derived element qname/type for"
+                f" {meta.clazz.__qualname__}.{var.name}"
+            )
+
         if var.elements:
             choice = var.find_choice(qname)
             if choice is None:
